@@ -339,11 +339,18 @@ func (e *orderEnv) deviceAsk(p *provInst, when string, n int) []devAnswer {
 	return l
 }
 
-// lightBehaviour: the key set and the refusal of a fixed bad token request (asked of every provider after every step).
+// lightBehaviour: the key set, the refusal of a fixed bad token request and a client-credentials token request (asked of every provider after every step).
 func (e *orderEnv) lightBehaviour(p *provInst) map[string]string {
 	k := p.ag.Keys()
 	t := p.ag.Token(map[string][]string{"grant_type": {"nonsense"}}, vkit.RightCred(p.store.Clients["web"], p.issuer))
-	return map[string]string{"keys": fmt.Sprintf("%d %s", k.Status, k.Body), "token:unknown-grant": refusalLine(t)}
+	// and a token request that succeeds: everything of the answer but the token itself
+	cc := p.ag.Token(map[string][]string{"grant_type": {vkit.GCC}, "scope": {"openid"}}, vkit.RightCred(p.store.Clients["svc"], p.issuer))
+	ccLine := refusalLine(cc)
+	if cc.Success() {
+		m := cc.JSON()
+		ccLine = fmt.Sprintf("%d access_token-present=%v token_type=%v expires_in=%v scope=%v id_token-present=%v refresh_token-present=%v", cc.Status, cc.Str("access_token") != "", m["token_type"], m["expires_in"], m["scope"], m["id_token"] != nil, m["refresh_token"] != nil)
+	}
+	return map[string]string{"keys": fmt.Sprintf("%d %s", k.Status, k.Body), "token:unknown-grant": refusalLine(t), "token:client-credentials": ccLine}
 }
 
 // members of the discovery document that are decided by op.Config alone
